@@ -42,6 +42,8 @@ def register(reg):
     OB = ('(origin_module.contents[origin_name] if origin_name in origin_module.contents '
           'else origin_module.resolveName(origin_name))')
     MOVE = (f'(as_name in curr_mod_exports and {OB} is not None and isinstance({OB}.parent, CanContainImportsDocumentable) and '
+            # (C02: modules sit only in packages - a plain module re-exporting a module leaves it where its file is)
+            f'(not isinstance({OB}, Module) or isinstance(self.builder.current, Package)) and '
             '(origin_module.all is None or origin_name not in origin_module.all))')
     reg.contract(A, 'ModuleVistor._handleReExport',
                  params={'curr_mod_exports': 'Set[Str]', 'origin_name': 'Str', 'as_name': 'Str', 'origin_module': 'Ref[Module]'},
@@ -55,6 +57,7 @@ def register(reg):
                      f'implies(result, old({OB} is not None))',
                      f'implies(result, old(isinstance({OB}.parent, CanContainImportsDocumentable)))',
                      'implies(result, old(origin_module.all is None or origin_name not in origin_module.all))',
+                     f'implies(result and old(isinstance({OB}, Module)), old(isinstance(self.builder.current, Package)))',
                      "called('Documentable.reparent') == result",
                      # ... under the re-exporting module and the exported name
                      "implies(result, arg_of('Documentable.reparent', 'new_parent') == old(self.builder.current) and "
